@@ -3040,7 +3040,10 @@ class WorkflowGraph(object):
         bindings = expand_bindings(bindings, stage_idx)
         do_while = {key: do_while[key] for key in do_while if key != 'bindings'}
 
-        foreign_components = self._concrete.get_component_identifiers(True, False)
+        # VV: Iteration 0 is instantiated against the identifiers of the *unreplicated* components (see
+        # package_document_load()); use the same namespace here so that bindings to replicated components
+        # (which the replicated FlowIR only knows as <name><replica>) can still be resolved
+        foreign_components = self.configuration._unreplicated.get_component_identifiers(True, False)
 
         dw_components, _ = experiment.model.frontends.flowir.instantiate_dowhile(
             do_while, bindings, stage_idx, dw_comp_instantiate_name, foreign_components, label=dw_label,
